@@ -27,6 +27,9 @@ checks = {
  "C16": ("model_checking", "stateless exploration of all interleavings (deviation-bounded) of WaitTimeout's caller, helper goroutine, timer event and signaller under a controlled scheduler with a logical clock; bounded-exhaustive input enumeration for the pure primitives",
          "Lock held and exclusive on return, no unlock of an unlocked mutex, return guaranteed on the timer-only and signal-only paths over every explored schedule; canonical decimal rendering on all n<10^5 and all boundaries; MapClear on all small maps; Assume/Assert on both booleans.",
          "wall-clock bounds only in logical form; primitive module instrumented by overlay", "2 C16"),
+ "C18": ("exploration", "bounded-exhaustive enumeration of package directories (file-kind alphabet x function-header alphabet) fed to the real test_gen binary in both modes, compared with a go/parser reference extractor; generated Go files compiled",
+         "For every enumerated directory both generators emit exactly the reference list of tests in order with correct Fail marking and agree with each other; distinct generated Go files compile against their package.",
+         "gofmt-formatted packages whose test functions are func() bool; alphabet bounds", "2 C18"),
 }
 todo = {}
 man = {
